@@ -11,6 +11,8 @@ PROP = dict(
                  harness=["collect/collector_test.go", "collect/collector_trace_test.go"], race=True, race_oracle=True, budget={"quick": 12, "thorough": 120}),
             dict(kind="gotest", name="node", pkg="route", test="TestVerifClusterRace", harness=["route/cluster_test.go", "route/race_test.go"],
                  race=True, race_oracle=True, budget={"quick": 12, "thorough": 120}),
+            dict(kind="gotest", name="stress", pkg="collect", test="TestVerifStressRace", harness=["collect/stress_race_test.go"],
+                 race=True, race_oracle=True, budget={"quick": 8, "thorough": 60}),
             dict(kind="gotest", name="reload", pkg="config", test="TestVerifC27Concurrent", harness=["config/c27_reload_test.go", "config/c27_concurrent_test.go", "config/c27_trace_test.go"],
                  race=True, race_oracle=True, race_only=True, budget={"quick": 8, "thorough": 60}),
             dict(kind="gotest", name="metrics", pkg="metrics", test="TestVerifC33Concurrent", harness=["metrics/c33_concurrent_test.go"],
